@@ -8,6 +8,8 @@ INVARIANT WrapMeets
 INVARIANT WrapLength
 INVARIANT Symmetric
 INVARIANT KernelLaws
+INVARIANT CallAccepts
+INVARIANT CallPoolLaws
 INVARIANT LazyEnds
 INVARIANT LazyIsShort
 INVARIANT LazyPatternsRestart
